@@ -18,7 +18,7 @@ Mutants (mutants/C11/*.diff), each run through the complete quick tier in a scra
   rep-max-plus1        {n,m} compiled as {n,m+1}                                           DETECTED (T, schema mode: /-{0,1}/ accepts "--")
   bm-shift             Boyer-Moore shift table off by one (pre-filter rejects a match)    DETECTED (T, XPath mode: /-1/ misses "\t-1")
   subtract-boundary    RangeToken::subtractRanges keeps the subtrahend's last character   DETECTED (T: /[\\--a-[ -\\-]]*/ accepts "-")
-  space-no-tab         \\s without TAB                                                     run not finished when this was written (alphabet Alpha6 contains TAB)
+  space-no-tab         \\s without TAB                                                     DETECTED (T, schema mode: /\\s-/ rejects "\\t-")
   complement-boundary  RangeToken::complementRanges includes the next range's first char  DETECTED (T: /\\S*/ accepts " ")
   union-first-only     matchUnion returns the first alternative that matches              NOT detected: every string it newly rejects is one whose
                        greedy-first match is shorter than the string, i.e. exactly the class of the open known finding
